@@ -539,12 +539,14 @@ fn is_changed_after_unmarking_chemistry(mathml: Element) -> bool {
         mathml.remove_attribute(CHEM_FORMULA_OPERATOR);
         mathml.remove_attribute(CHEM_EQUATION_OPERATOR);
         mathml.remove_attribute(CHEMICAL_BOND);
-        if mathml.attribute(MERGED_TOKEN).is_some() {
+        // the marks can also arrive with the input (MathML returned by MathCAT, sent back) on tokens that were never merged/split -- those are left alone
+        if mathml.attribute(MERGED_TOKEN).is_some() && as_text(mathml).chars().count() == 2 {
             unmerge_element(mathml);
             return true;    // need to re-parse
         } else if mathml.attribute(SPLIT_TOKEN).is_some() {
             if let Err(err) = merge_element(mathml) {
-                panic!("{}", err);
+                error!("{}", err);
+                mathml.remove_attribute(SPLIT_TOKEN);
             }
             // debug!("After merge_element:{}", mml_to_string(&mathml));
             // let parent = get_parent(mathml);
